@@ -660,6 +660,8 @@ def _enumerate(ex, args, kwargs, node):
 def _zip(ex, args, kwargs, node):
     conc = [ex.concrete_items(a) for a in args]
     if all(c is not None for c in conc):
+        if getattr(ex, "unroll_zip", False):
+            ex.emit("zip_unroll", node, parts=list(args), length=min((len(c) for c in conc), default=0))
         return TupleV([TupleV(list(t)) for t in zip(*conc)])
     return OpaqueV("zip(" + ",".join(valkey(a) for a in args) + ")", {"kind": "zip", "parts": list(args)})
 
@@ -1428,9 +1430,16 @@ def _np_space(ex, args, kwargs, node):
     lo, hi = args[0], args[1]
     n = _kw(args, kwargs, 2, "num", scalar_int(50))
     dt = _dtype_of(kwargs.get("dtype"))
-    r = ex.mk("space", lo.nf, hi.nf, n.nf, shape=(n.nf,), dtype=dt or "float")
+    fn = "geomspace" if "geomspace" in ast.unparse(node.func) else "linspace"
+    ep = kwargs.get("endpoint")
+    endpoint = True
+    if ep is not None:
+        c = ep.cond if isinstance(ep, Num) and ep.cond is not None else None
+        endpoint = True if (c is not None and c.t == ("const", True)) else (False if (c is not None and c.t == ("const", False)) else None)
+    name = "space" if endpoint is True else "space_open"
+    r = ex.mk(name, lo.nf, hi.nf, n.nf, shape=(n.nf,), dtype=dt or "float")
     r.meta["space"] = (lo, hi, n)
-    ex.emit("space", node, lo=lo, hi=hi, num=n, result=r, dtype=dt)
+    ex.emit("space", node, lo=lo, hi=hi, num=n, result=r, dtype=dt, fn=fn, endpoint=endpoint)
     return r
 
 
@@ -1566,6 +1575,10 @@ def _mvn_rvs(ex, args, kwargs, node):
     n = size.nf if isinstance(size, Num) else None
     a = ex.new_array(("opaque", "rvs"), (n, p) if (n is not None and p is not None) else None, "float", node)
     a.rvs = b
+    # scipy squeezes unit dimensions out of the sample: the nominal (size, dim) shape is exact only
+    # after an explicit reshape (recorded by num_method 'reshape' in a.reshaped_to)
+    a.squeezed = True
+    a.reshaped_to = None
     return ex.arr_value(a)
 
 
@@ -1835,6 +1848,10 @@ def num_method(ex, v: Num, name, args, kwargs, node):
                 out.append(total / known if c == -1 else d.nf)
             shape = tuple(out)
         r = Num(v.nf, shape, v.dtype, v.pytype, arr=v.arr, cond=v.cond, meta=dict(v.meta, reshaped_from=v))
+        if v.arr is not None and getattr(v.arr, "squeezed", False):
+            tgt = shape if shape is not None else (tuple(d.nf for d in dims) if all(isinstance(d, Num) for d in dims) else None)
+            v.arr.reshaped_to = tgt
+            ex.emit("reshape", node, arr=v.arr, dims=tgt)
         return r
     if name in ("sum",):
         return reduce_sum(ex, v, _axis(kwargs, args, 0), node)
